@@ -119,6 +119,11 @@ where
         }
     };
     let value = slot.lock().unwrap().take();
+    let outcome = if trace.livelock {
+        Outcome::MaxSteps(format!("livelock: no progress event for {} scheduling steps", crate::sched::NO_PROGRESS_STEPS))
+    } else {
+        outcome
+    };
     SimResult {
         outcome,
         value,
@@ -177,9 +182,14 @@ fn finish_current<S, T>(st: &mut BatchState<S, T>, slot: &Arc<Mutex<Option<T>>>,
         let world = verif::uninstall().expect("world vanished");
         let trace = std::mem::take(&mut *trace.lock().unwrap());
         let value = slot.lock().unwrap().take();
-        if std::env::var("VERIF_DEBUG").is_ok() && outcome == Outcome::Done && value.is_none() {
-            eprintln!("[simrun] job {idx}: Done without value; queue left {}; trace len {}", st.queue.len(), trace.choices.len());
-        }
+        let outcome = if trace.livelock {
+            Outcome::MaxSteps(format!(
+                "livelock: no progress event (queue admit/take/close, token, barrier, contig, exit) for {} scheduling steps while tasks kept running (polling)",
+                crate::sched::NO_PROGRESS_STEPS
+            ))
+        } else {
+            outcome
+        };
         st.results[idx] = Some(SimResult { outcome, value, world, trace });
     }
 }
